@@ -31,3 +31,8 @@ func lemmaNamesMin(s []string, n int) {
 	for i := 0; i < n; i++ {
 	}
 }
+
+func lemmaDirsExt(s, t []Dir) {
+	for i := len(s); i > 0; i-- {
+	}
+}
